@@ -193,6 +193,24 @@ func cmdAPI(in, out string) error {
 				b, _ := json.Marshal(AlphaWith(f, AlphaOpts{KeepImports: true}))
 				res.Out = string(b)
 			}
+		case "histobs":
+			// package name and the called function names in source order
+			f, err := parser.ParseFile(token.NewFileSet(), "x.go", r.Src, parser.ParseComments)
+			if err != nil {
+				res.Err = err.Error()
+				break
+			}
+			calls := []string{}
+			ast.Inspect(f, func(n ast.Node) bool {
+				if c, ok := n.(*ast.CallExpr); ok {
+					if id, ok := c.Fun.(*ast.Ident); ok {
+						calls = append(calls, id.Name)
+					}
+				}
+				return true
+			})
+			b, _ := json.Marshal(map[string]any{"pkg": f.Name.Name, "calls": calls})
+			res.Out = string(b)
 		case "impobs":
 			// independent observation of a Go file: its imports, the names used as
 			// selector bases that do not resolve to a local declaration, and the
